@@ -30,7 +30,56 @@ func tryReplay(cr *checkRun, r *OblResult, sr *SiteResult, rep map[string]interf
 			return replayOpsFault(op, sr, rep)
 		}
 	}
+	if bat := batteryFor(r.Obl.Prop); bat != "" {
+		return replayBattery(bat, rep)
+	}
 	return false, "no replay template for this function family; the solver's model is attached in solver_output"
+}
+
+func batteryFor(prop string) string {
+	return map[string]string{"C03": "roundtrip", "C06": "torn", "C16": "torn", "C04": "positions"}[prop]
+}
+
+var batteryCache = map[string][2]string{}
+
+// replayBattery: the failing clause talks about stream wiring, positions or ghost state, which has no direct rendering
+// as one byte-level input; the family of inputs the clause quantifies over (pipeline configurations x size classes,
+// cut offsets, histories x record sizes) is instantiated on the real code and searched for a concrete failing input.
+func replayBattery(bat string, rep map[string]interface{}) (bool, string) {
+	tmpl := filepath.Join(verifDir, "replay", "templates", "fs_battery_test.go")
+	cmdline := "VERIF_BATTERY=" + bat + " /verif/tools/replay.sh " + repoDir() + " pkg/fs 'TestVerifReplay_Battery$' " + tmpl
+	rep["replay_cmd"] = cmdline
+	if c, ok := batteryCache[bat]; ok {
+		rep["replay_output"] = c[1]
+		return c[0] != "", c[0]
+	}
+	ov := map[string]map[string]string{"Replace": {filepath.Join(repoDir(), "pkg/fs", "zz_verif_fs_battery_test.go"): tmpl}}
+	ovFile := filepath.Join(scratchDir(), "overlay_battery.json")
+	b, _ := json.Marshal(ov)
+	os.WriteFile(ovFile, b, 0o644)
+	cmd := exec.Command("go", "test", "-overlay", ovFile, "-v", "-vet=off", "-count=1", "-timeout", "300s", "-run", "TestVerifReplay_Battery$", "./pkg/fs/")
+	cmd.Dir = repoDir()
+	cmd.Env = append(os.Environ(), "GOFLAGS=-mod=mod", "GOPROXY=off", "GOSUMDB=off", "GOTOOLCHAIN=local", "VERIF_BATTERY="+bat)
+	out, _ := cmd.CombinedOutput()
+	var lines []string
+	for _, l := range strings.Split(string(out), "\n") {
+		if strings.Contains(l, "FAILING-INPUT") || strings.HasPrefix(l, "panic:") {
+			lines = append(lines, strings.TrimSpace(l))
+		}
+	}
+	text := truncate(strings.Join(lines, "\n"), 6000)
+	msg := ""
+	if len(lines) > 0 {
+		msg = "replayed on the real code: the " + bat + " battery finds concrete failing inputs, first: " + lines[0]
+	} else {
+		text = truncate(string(out), 2000)
+	}
+	batteryCache[bat] = [2]string{msg, text}
+	rep["replay_output"] = text
+	if msg == "" {
+		return false, "the " + bat + " battery ran on the real code and found no concrete failing input among its cases; the obligation still fails (model attached)"
+	}
+	return true, msg
 }
 
 var lastCallRe = regexp.MustCompile(`(?:after|at) ([A-Za-z_$0-9]+)#(\d+)`)
